@@ -859,7 +859,8 @@ class QueryBuilder(Selectable, Term):  # type:ignore[misc]
                     updates.append(
                         "{field}=EXCLUDED.{value}".format(
                             field=field.get_sql(ctx),
-                            value=field.get_sql(ctx),
+                            # EXCLUDED is the qualifier here: the bare column name follows it
+                            value=format_identifier(field.name, ctx.quote_char),
                         )
                     )
             action_sql = " DO UPDATE SET {updates}".format(updates=",".join(updates))  # nosec:B608
